@@ -1152,3 +1152,8 @@ for _f in sorted(_glob.glob(_os.path.join(_VERIF, 'seeded', 'benign*', '*', '*.d
     _rel = _os.path.relpath(_f, _VERIF)
     dtwin('benign-' + _rel.replace('seeded/', '').replace('/', '-').replace('.diff', ''), '*', _rel,
           why='independently produced behaviour-preserving refactoring')
+# breaking variants of accepted refactorings (an accepted idiom with one thing wrong): seeded/variants/Cxx-*.diff
+for _f in sorted(_glob.glob(_os.path.join(_VERIF, 'seeded', 'variants', 'C[0-9][0-9]-*.diff'))):
+    _b = _os.path.basename(_f)
+    dfire('variant-' + _b.replace('.diff', '')[:60], _b[:3], _os.path.relpath(_f, _VERIF), None,
+          why='an accepted refactoring with one breaking edit (made with bin/mk_variant)')
